@@ -645,11 +645,20 @@ fn directed_body(idx: u64, mut cfg: ZooCfg, verbose: bool, log: SharedLog) -> Ca
     out
 }
 
+/// 15 s for one poll call; under the Miri interpreter (~10^4 x slower) the margin is kept by scaling the limit
+fn watchdog_s(ctx: &Ctx) -> u64 {
+    if ctx.variant.starts_with("miri") {
+        3000
+    } else {
+        15
+    }
+}
+
 fn directed_case(idx: u64, rng: &mut Rng, ctx: &Ctx) -> CaseOut {
     let med = Med::ALL[(idx % 3) as usize];
     let cfg = ZooCfg::random(med, rng);
     let verbose = ctx.verbose;
-    guarded(med, 15, verbose, move |log| directed_body(idx, cfg, verbose, log))
+    guarded(med, watchdog_s(ctx), verbose, move |log| directed_body(idx, cfg, verbose, log))
 }
 
 fn run(gen: Gen, idx: u64, rng: &mut Rng, ctx: &Ctx) -> CaseOut {
@@ -661,7 +670,7 @@ fn run(gen: Gen, idx: u64, rng: &mut Rng, ctx: &Ctx) -> CaseOut {
     }
     let r = rng.clone();
     let verbose = ctx.verbose;
-    guarded(med, 15, verbose, move |log| case_body(gen, idx, cfg, r, verbose, log))
+    guarded(med, watchdog_s(ctx), verbose, move |log| case_body(gen, idx, cfg, r, verbose, log))
 }
 
 fn bytes_case(i: u64, r: &mut Rng, c: &Ctx) -> CaseOut {
